@@ -10,6 +10,7 @@ import (
 	"net"
 	"os"
 	"runtime"
+	"strings"
 	"sync"
 	"syscall"
 	"time"
@@ -37,13 +38,22 @@ type Peer interface {
 
 // NetPlan describes how the peer->client stream is cut into reads and delayed.
 type NetPlan struct {
-	SegMode string        `json:"seg"` // whole | one | random | small | mixed
+	SegMode string        `json:"seg"` // whole | one | random | small | marks | mixed
 	LatMode string        `json:"lat"` // zero | fixed | random | trickle
 	LatMax  time.Duration `json:"lat_max"`
 	Seed    uint64        `json:"seed"`
 	// JoinMsgs: a read may carry the end of one peer message and the beginning of the next
 	// (default: a read never spans two messages)
 	JoinMsgs bool `json:"join_msgs,omitempty"`
+	// Marks: bytes of structural interest (delimiter characters, line feeds, ...). When set, the
+	// "marks" mode (also one of the modes "mixed" draws from) ends reads a few bytes before / at /
+	// after an occurrence of such a byte, so that cuts land around delimiters far more often than
+	// uniformly drawn cuts do.
+	Marks string `json:"marks,omitempty"`
+	// CutAt (mode "cuts"): absolute offsets of the peer->client stream at which a read must end;
+	// apart from that every read returns all that is available. Used by the cut enumeration:
+	// one sub-run per cut position of a base scenario.
+	CutAt []int `json:"cut_at,omitempty"`
 }
 
 // Faults is the fault plan of one transport.
@@ -459,9 +469,38 @@ func (t *T) cut(avail, n int) int {
 	m := max
 	mode := t.Plan.SegMode
 	if mode == "mixed" {
-		mode = []string{"whole", "one", "random", "small"}[t.rng.IntN(4)]
+		if t.Plan.Marks != "" {
+			mode = []string{"whole", "one", "random", "small", "marks", "marks"}[t.rng.IntN(6)]
+		} else {
+			mode = []string{"whole", "one", "random", "small"}[t.rng.IntN(4)]
+		}
 	}
 	switch mode {
+	case "cuts":
+		for _, c := range t.Plan.CutAt {
+			if c > t.delivered && c < t.delivered+m {
+				m = c - t.delivered
+			}
+		}
+	case "marks":
+		// positions (relative to the first undelivered byte) of the marked bytes in reach
+		var pos []int
+		for i := 0; i < max+3 && t.delivered+i < len(t.out) && len(pos) < 8; i++ {
+			if strings.IndexByte(t.Plan.Marks, t.out[t.delivered+i]) >= 0 {
+				pos = append(pos, i)
+			}
+		}
+		if len(pos) == 0 || t.Plan.Marks == "" {
+			m = 1 + t.rng.IntN(max)
+		} else {
+			m = pos[t.rng.IntN(len(pos))] + t.rng.IntN(12) - 2
+			if m < 1 {
+				m = 1
+			}
+			if m > max {
+				m = max
+			}
+		}
 	case "one":
 		m = 1
 	case "random":
